@@ -67,6 +67,8 @@ var (
 )
 
 // Reset empties the tree; cwd is created.
+//
+//go:norace
 func Reset(workdir string) {
 	root = &node{dir: true, children: map[string]*node{}}
 	cwd = workdir
@@ -75,6 +77,7 @@ func Reset(workdir string) {
 	mk(root, split(workdir), true)
 }
 
+//go:norace
 func split(abs string) []string {
 	var out []string
 	for _, c := range strings.Split(abs, "/") {
@@ -85,6 +88,7 @@ func split(abs string) []string {
 	return out
 }
 
+//go:norace
 func mk(n *node, comps []string, pre bool) *node {
 	for _, c := range comps {
 		ch := n.children[c]
@@ -98,11 +102,14 @@ func mk(n *node, comps []string, pre bool) *node {
 }
 
 // AddDir / AddFile pre-populate the tree (absolute or cwd-relative paths).
+//
+//go:norace
 func AddDir(p string) {
 	comps, _ := resolveLexical(p)
 	mk(root, comps, true)
 }
 
+//go:norace
 func AddFile(p string, data []byte) {
 	comps, _ := resolveLexical(p)
 	if len(comps) == 0 {
@@ -112,6 +119,7 @@ func AddFile(p string, data []byte) {
 	d.children[comps[len(comps)-1]] = &node{data: append([]byte(nil), data...), preexist: true}
 }
 
+//go:norace
 func stamp() int {
 	if StepFn != nil {
 		return StepFn()
@@ -121,6 +129,8 @@ func stamp() int {
 
 // resolveLexical turns p into absolute components without consulting the tree ("..": parent, as Linux does
 // when no symlinks exist — and simfs has none). Errors mirror Linux.
+//
+//go:norace
 func resolveLexical(p string) ([]string, error) {
 	if p == "" {
 		return nil, syscall.ENOENT
@@ -154,6 +164,8 @@ func resolveLexical(p string) ([]string, error) {
 
 // walk resolves p against the tree. Every intermediate component must be an existing directory (so
 // "a/../b" fails when a does not exist, as on Linux).
+//
+//go:norace
 func walk(p string) (parent *node, name string, target *node, abs string, err error) {
 	if p == "" {
 		return nil, "", nil, "", syscall.ENOENT
@@ -228,6 +240,7 @@ func walk(p string) (parent *node, name string, target *node, abs string, err er
 	return parent, top.name, top.n, abs, nil
 }
 
+//go:norace
 func perr(op, path string, err error) error {
 	if err == nil {
 		return nil
@@ -235,6 +248,7 @@ func perr(op, path string, err error) error {
 	return &PathError{Op: op, Path: path, Err: err}
 }
 
+//go:norace
 func fault(op, path string) error {
 	if Fault != nil {
 		return Fault(op, path)
@@ -242,8 +256,10 @@ func fault(op, path string) error {
 	return nil
 }
 
+//go:norace
 func Getwd() (string, error) { return cwd, nil }
 
+//go:norace
 func Mkdir(p string, perm FileMode) error {
 	if err := fault("mkdir", p); err != nil {
 		return perr("mkdir", p, err)
@@ -263,6 +279,7 @@ func Mkdir(p string, perm FileMode) error {
 	return nil
 }
 
+//go:norace
 func MkdirAll(p string, perm FileMode) error {
 	if err := fault("mkdirall", p); err != nil {
 		return perr("mkdir", p, err)
@@ -306,6 +323,7 @@ func MkdirAll(p string, perm FileMode) error {
 	return nil
 }
 
+//go:norace
 func WriteFile(name string, data []byte, perm FileMode) error {
 	f, err := OpenFile(name, O_WRONLY|O_CREATE|O_TRUNC, perm)
 	if err != nil {
@@ -318,6 +336,7 @@ func WriteFile(name string, data []byte, perm FileMode) error {
 	return err
 }
 
+//go:norace
 func ReadFile(name string) ([]byte, error) {
 	_, _, target, _, err := walk(name)
 	if err != nil {
@@ -342,9 +361,13 @@ type File struct {
 	pos    int
 }
 
+//go:norace
 func Create(name string) (*File, error) { return OpenFile(name, O_RDWR|O_CREATE|O_TRUNC, 0o666) }
-func Open(name string) (*File, error)   { return OpenFile(name, O_RDONLY, 0) }
 
+//go:norace
+func Open(name string) (*File, error) { return OpenFile(name, O_RDONLY, 0) }
+
+//go:norace
 func OpenFile(name string, flag int, perm FileMode) (*File, error) {
 	if err := fault("open", name); err != nil {
 		return nil, perr("open", name, err)
@@ -381,8 +404,10 @@ func OpenFile(name string, flag int, perm FileMode) (*File, error) {
 	return &File{n: target, abs: abs, name: name, flag: flag}, nil
 }
 
+//go:norace
 func (f *File) Name() string { return f.name }
 
+//go:norace
 func (f *File) Write(b []byte) (int, error) {
 	if f == nil {
 		return 0, ErrInvalid
@@ -407,8 +432,10 @@ func (f *File) Write(b []byte) (int, error) {
 	return len(b), nil
 }
 
+//go:norace
 func (f *File) WriteString(s string) (int, error) { return f.Write([]byte(s)) }
 
+//go:norace
 func (f *File) Sync() error {
 	if f == nil {
 		return ErrInvalid
@@ -419,6 +446,7 @@ func (f *File) Sync() error {
 	return nil
 }
 
+//go:norace
 func (f *File) Close() error {
 	if f == nil {
 		return ErrInvalid
@@ -430,6 +458,7 @@ func (f *File) Close() error {
 	return nil
 }
 
+//go:norace
 func Remove(name string) error {
 	parent, base, target, abs, err := walk(name)
 	if err != nil {
@@ -451,18 +480,30 @@ type info struct {
 	n    *node
 }
 
+//go:norace
 func (i info) Name() string { return i.name }
-func (i info) Size() int64  { return int64(len(i.n.data)) }
+
+//go:norace
+func (i info) Size() int64 { return int64(len(i.n.data)) }
+
+//go:norace
 func (i info) Mode() FileMode {
 	if i.n.dir {
 		return ModeDir | 0o755
 	}
 	return 0o644
 }
-func (i info) ModTime() (t timeT) { return }
-func (i info) IsDir() bool        { return i.n.dir }
-func (i info) Sys() any           { return nil }
 
+//go:norace
+func (i info) ModTime() (t timeT) { return }
+
+//go:norace
+func (i info) IsDir() bool { return i.n.dir }
+
+//go:norace
+func (i info) Sys() any { return nil }
+
+//go:norace
 func Stat(name string) (FileInfo, error) {
 	_, base, target, _, err := walk(name)
 	if err != nil {
@@ -474,13 +515,23 @@ func Stat(name string) (FileInfo, error) {
 	return info{base, target}, nil
 }
 
+//go:norace
 func Lstat(name string) (FileInfo, error) { return Stat(name) }
 
-func IsNotExist(err error) bool   { return stdos.IsNotExist(err) }
-func IsExist(err error) bool      { return stdos.IsExist(err) }
+//go:norace
+func IsNotExist(err error) bool { return stdos.IsNotExist(err) }
+
+//go:norace
+func IsExist(err error) bool { return stdos.IsExist(err) }
+
+//go:norace
 func IsPermission(err error) bool { return stdos.IsPermission(err) }
-func Getenv(k string) string      { return "" }
-func Exit(code int)               { panic("simfs: os.Exit called by the application") }
+
+//go:norace
+func Getenv(k string) string { return "" }
+
+//go:norace
+func Exit(code int) { panic("simfs: os.Exit called by the application") }
 
 // Snapshot lists every file (not directory) in the tree with its size; preexisting ones are flagged.
 type Entry struct {
@@ -491,6 +542,7 @@ type Entry struct {
 	Data     []byte
 }
 
+//go:norace
 func Snapshot() []Entry {
 	var out []Entry
 	var rec func(n *node, p string)
